@@ -60,6 +60,9 @@ def gen_c09_file(rnd):
             r['subcategory'] = rnd.choice(SUBS) + str(i)
         if rnd.random() < 0.2:
             r['merchant'] = f'Mer{i}'
+        if rules and rnd.random() < 0.25:       # an exact tie: same expression text and priority as an earlier rule
+            src = rnd.choice(rules)
+            r['match'], r['priority'] = src['match'], src['priority']
         if not r['category'] and not r['tags']:
             r['tags'] = ['t' + str(i)]
         rules.append(r)
